@@ -84,6 +84,46 @@ theorem hasDerivAt_logsinh_core {g : ℝ → ℝ} {g' x : ℝ} (hg : HasDerivAt 
   field_simp
   ring
 
+
+/-! ### small facts used by several property theorems (parameter bounds, BoxCox2sym on each half-line) -/
+
+theorem BoxCox2sym.fwd_of_pos (p : BoxCox2sym.Params ℝ) {t : ℝ} (ht : 0 < t) :
+    BoxCox2sym.fwd p t = BoxCox2.fwd (BoxCox2sym.toBC p) t - BoxCox2sym.y0 p := by
+  simp only [BoxCox2sym.fwd, C01.sign_pos ht, absv_eq, abs_of_pos ht, one_mul]
+
+theorem BoxCox2sym.fwd_of_neg (p : BoxCox2sym.Params ℝ) {t : ℝ} (ht : t < 0) :
+    BoxCox2sym.fwd p t = -(BoxCox2.fwd (BoxCox2sym.toBC p) (-t) - BoxCox2sym.y0 p) := by
+  simp only [BoxCox2sym.fwd, C01.sign_neg ht, absv_eq, abs_of_neg ht, neg_mul, one_mul]
+
+theorem BoxCox2sym.fwd_zero (p : BoxCox2sym.Params ℝ) : BoxCox2sym.fwd p 0 = 0 := by
+  simp only [BoxCox2sym.fwd, C01.sign_zero, zero_mul]
+
+theorem Sinh.scale_pos (p : Sinh.Params ℝ) (hp : Sinh.admissible p) : 0 < p.scale := by
+  unfold Sinh.admissible at hp
+  have : (0 : ℝ) < 1e-10 := by norm_num
+  linarith
+
+theorem Manly.xmax_pos (p : Manly.Params ℝ) (hp : Manly.admissible p) : 0 < p.xmax :=
+  lt_of_lt_of_le eps_pos hp.2.2
+
+theorem LogSinh.xmax_pos (p : LogSinh.Params ℝ) (hp : LogSinh.admissible p) : 0 < p.xmax :=
+  lt_of_lt_of_le eps_pos hp.2.2.2.2
+
+/-- inside the guard `x/xmax > -a/b + EPS` the argument of `sinh` is positive -/
+theorem LogSinh.w_pos (p : LogSinh.Params ℝ) (x : ℝ) (hx : LogSinh.dom p x) :
+    0 < LogSinh.a p + LogSinh.b p * (x / p.xmax) := by
+  have hb : 0 < LogSinh.b p := Real.exp_pos _
+  unfold LogSinh.dom LogSinh.inDom at hx
+  rw [decide_eq_true_iff] at hx
+  have h1 : -LogSinh.a p / LogSinh.b p < x / p.xmax := by linarith [eps_pos]
+  rw [div_lt_iff₀ hb] at h1
+  linarith
+
+theorem YeoJohnson.scale_pos (p : YeoJohnson.Params ℝ) (hp : YeoJohnson.admissible p) : 0 < p.scale := by
+  have h := hp.1
+  have : (0 : ℝ) < 1e-5 := by norm_num
+  linarith
+
 /-! ### Yeo-Johnson on the shifted argument `w`: the two formulas (`posF`, `negF` of Lemmas/C01Sliver) and their
 derivatives `posJ`, `negJ` -/
 namespace YeoJohnson
